@@ -37,6 +37,15 @@ SRC = {
     2: "async def f(*a, **k):\n    T(ME, 0)\n    try:\n        await SUSP()\n    finally:\n        T(ME, 1)\n    return ME\n",
     3: "async def f(*a, **k):\n    T(ME, 0)\n    try:\n        yield 1\n        await SUSP()\n        yield 2\n    finally:\n        T(ME, 1)\n",
 }
+# The same bodies as ONE `def` inside a factory that is executed once per leaf: all such leaves
+# share the very same code object (same file, same line) and differ only in __kwdefaults__
+# (the `def cb(x, i=i)` idiom; no closure).  Their statistics share one (file, line, name) key.
+def _factory(src):
+    lines = src.replace('ME', '_me').replace('(*a, **k)', '(*a, _me=_me0, **k)').splitlines()
+    return 'def make(_me0):\n' + ''.join('    ' + l + '\n' for l in lines) + '    return f\n'
+
+
+SRC_DEF = {k: _factory(v) for k, v in SRC.items()}
 MARK_LINES = {0: (2, 3), 1: (2, 7), 2: (2, 6), 3: (2, 8)}
 MODES = ['exhaust', 'close', 'throw', 'drop']
 
@@ -105,9 +114,20 @@ class Holder:
 
 
 class Ctx:
-    def __init__(self, caseno):
+    def __init__(self, caseno, deco='lp', same_def=False):
         from line_profiler import LineProfiler
         self.prof = LineProfiler()
+        if deco == 'global':
+            # the explicit decorator `line_profiler.profile`: a GlobalProfiler, enabled, handed our
+            # profiler the way kernprof does it (no atexit hook, no output files)
+            from line_profiler.explicit_profiler import GlobalProfiler
+            self.deco = GlobalProfiler()
+            self.deco._kernprof_overwrite(self.prof)
+        else:
+            self.deco = self.prof
+        self.same_def = same_def
+        self.factories = {}
+        self.fname = {}
         self.caseno = caseno
         self.leaves = {}      # id(function) -> (i, kind)
         self.byid = {}        # i -> function
@@ -133,10 +153,19 @@ class Ctx:
         if i in self.byid:          # the same function object used twice inside one object
             self.order.append(i)
             return self.byid[i]
-        ns = {'T': self.T, 'SUSP': Suspend, 'ME': i}
-        fname = '<c16-%d-%d>' % (self.caseno, i)
-        exec(compile(SRC[k], fname, 'exec'), ns)
-        f = ns['f']
+        if self.same_def:
+            fname = '<c16-%d-def%d>' % (self.caseno, k)
+            if k not in self.factories:
+                ns = {'T': self.T, 'SUSP': Suspend}
+                exec(compile(SRC_DEF[k], fname, 'exec'), ns)
+                self.factories[k] = ns['make']
+            f = self.factories[k](i)
+        else:
+            ns = {'T': self.T, 'SUSP': Suspend, 'ME': i}
+            fname = '<c16-%d-%d>' % (self.caseno, i)
+            exec(compile(SRC[k], fname, 'exec'), ns)
+            f = ns['f']
+        self.fname[i] = fname
         self.leaves[id(f)] = (i, k)
         self.byid[i] = f
         self.kinds[i] = k
@@ -149,7 +178,7 @@ class Ctx:
         if tag == 'fn':
             return self.leaf(t[1], t[2])
         if tag == 'wr':
-            return self.prof(self.leaf(t[1], t[2]))
+            return self.deco(self.leaf(t[1], t[2]))
         if tag == 'cm':
             return classmethod(self.build(t[1]))
         if tag == 'sm':
@@ -223,6 +252,24 @@ def leaf_kinds(t):
         if isinstance(x, list):
             out |= leaf_kinds(x)
     return out
+
+
+def hits_execs(ctx, ids, h0, h1):
+    """[hits of marker 0, marker 1] and executions per leaf in `ids`.  Leaves made by one `def`
+    share their statistics key: a leaf is then credited what is left of the key's hits after the
+    exact executions of the other leaves of that key (equal to its own executions iff the key's
+    total is exact)."""
+    hits, execs = [], []
+    for i in ids:
+        fname = ctx.fname[i]
+        off = 1 if ctx.same_def else 0
+        mates = [j for j in set(ctx.order) if ctx.fname[j] == fname and j != i]
+        for j, ln in enumerate(MARK_LINES[ctx.kinds[i]]):
+            ln += off
+            tot = h1.get(fname, {}).get(ln, 0) - h0.get(fname, {}).get(ln, 0)
+            hits.append(tot - sum(ctx.execs[m][j] for m in mates))
+            execs.append(ctx.execs[i][j])
+    return hits, execs
 
 
 def plan_for(t):
@@ -364,40 +411,45 @@ def enc_runs(runs_per_access):
 
 def run_case(caseno, case):
     import sys
-    ctx = Ctx(caseno)
+    ctx = Ctx(caseno, case.get('deco', 'lp'), bool(case.get('same_def')))
     t = case['term']
     res = dict(err=None)
     plan = plan_for(t)
     res['plan'] = [[ACCESS_CODE[h], d] for h, d, _m in plan]
     res['modes'] = [m for _h, _d, m in plan]
+    first = [(h, 0, 'exhaust') for h, d, _m in plan if d == 0 and h != 'cget2'][:1]
+    res['sib_access'] = ACCESS_CODE[first[0][0]] if first else 0
     try:
         with warnings.catch_warnings():
             warnings.simplefilter('ignore')
+            # siblings: decorated in a row, the decorated objects themselves are temporaries
+            kept = []
+            for st in case.get('before', []):
+                kept.append(ctx.deco(ctx.build(st)))
+            sib_ids = list(ctx.order)
+            res['sib_regs'] = ctx.func_ids()
+            res['sib_shapes'] = [ctx.describe(w) for w in kept]
             obj = ctx.build(t)
+            main_ids = ctx.order[len(sib_ids):]
             res['regs0'] = ctx.func_ids()
-            res['leaf_ids'] = list(ctx.order)
+            res['leaf_ids'] = list(main_ids)
             res['orig'] = enc_runs(perform(ctx, obj, plan))
-            p1 = ctx.prof(obj)
+            p1 = ctx.deco(obj)
             res['funcs1'] = ctx.func_ids()
             res['shape1'] = ctx.describe(p1)
-            p2 = ctx.prof(p1)
+            p2 = ctx.deco(p1)
             res['funcs2'] = ctx.func_ids()
             res['shape2'] = ctx.describe(p2)
             res['same_object'] = p2 is p1
             h0 = ctx.hits()
-            for i in ctx.order:
+            for i in set(ctx.order):
                 ctx.execs[i] = [0, 0]
             res['runs1'] = enc_runs(perform(ctx, p1, plan))
             res['runs2'] = enc_runs(perform(ctx, p2, plan))
+            res['sib_runs'] = [enc_runs(perform(ctx, w, first)) for w in kept]
             h1 = ctx.hits()
-            hits, execs = [], []
-            for i in ctx.order:
-                fname = '<c16-%d-%d>' % (caseno, i)
-                for j, ln in enumerate(MARK_LINES[ctx.kinds[i]]):
-                    hits.append(h1.get(fname, {}).get(ln, 0) - h0.get(fname, {}).get(ln, 0))
-                    execs.append(ctx.execs[i][j])
-            res['hits'] = hits
-            res['execs'] = execs
+            res['hits'], res['execs'] = hits_execs(ctx, main_ids, h0, h1)
+            res['sib_hits'], res['sib_execs'] = hits_execs(ctx, sib_ids, h0, h1)
             res['count_after'] = int(ctx.prof.enable_count)
     except BaseException as e:  # noqa
         res['err'] = '%s: %s' % (type(e).__name__, e)
